@@ -594,8 +594,17 @@ func checkC12(c *Check) {
 						return true
 					})
 				}
+				declaredIn := map[types.Object]bool{}
+				ast.Inspect(rs, func(y ast.Node) bool {
+					if id, ok := y.(*ast.Ident); ok {
+						if o := info.Defs[id]; o != nil {
+							declaredIn[o] = true
+						}
+					}
+					return true
+				})
 				for v := range deps {
-					inLoop := v.Pos() >= rs.Pos() && v.Pos() < rs.End()
+					inLoop := declaredIn[v] || (v.Pos() >= rs.Pos() && v.Pos() < rs.End())
 					isRecv := false
 					if rl := r.FI.Decl.Recv; rl != nil && len(rl.List) == 1 && len(rl.List[0].Names) == 1 && info.Defs[rl.List[0].Names[0]] == types.Object(v) {
 						isRecv = true
